@@ -229,6 +229,11 @@ pub fn replay_main(_props: &[Property], id: &str, file: &str) -> i32 {
             println!("replay {}: property held", file);
             EXIT_OK
         }
+        1 if out.contains("harness:") => {
+            println!("{}", out);
+            println!("INCONCLUSIVE a self-check of the harness failed on this case (nothing is said about the code under test)");
+            EXIT_INCONCLUSIVE
+        }
         1 | 3 => {
             if code == 3 {
                 println!("FAIL: case does not terminate within the budget / exceeds the memory budget");
@@ -288,9 +293,11 @@ pub fn run_main(props: &[Property], id: &str, tier: Tier, seed: u64) -> i32 {
         match end {
             JobEnd::Done(st) => {
                 if let Some(f) = &st.failure {
-                    if f.case.is_null() || f.message.contains("observation lost:") {
-                        // generator abort, or the harness lost its (hook-free) view of private structure:
-                        // infrastructure problems, never reported as violations
+                    if f.case.is_null() || f.message.contains("observation lost:") || f.message.contains("harness:") {
+                        // generator abort, the harness lost its (hook-free) view of private structure, or one of
+                        // the harness's own self-checks ("harness: ...": generator produced a case outside the
+                        // domain, two oracles disagree with each other) failed: infrastructure problems that say
+                        // nothing about the code under test, never reported as violations
                         inconclusive.push(format!("{} shard {}: {}", sub, shard, f.message));
                     } else {
                         let path = f.replay_path.clone().unwrap_or_else(|| "<unwritable>".into());
@@ -382,6 +389,7 @@ pub fn run_main(props: &[Property], id: &str, tier: Tier, seed: u64) -> i32 {
             (0, None) => {}
             (0, Some(e)) => println!("NOTE: open known finding no longer reproduces: property={} sig={} ({})", id, e.sig.clone().unwrap_or_default(), rel),
             (1, Some(e)) | (3, Some(e)) => known_lines.push(format!("KNOWN-FINDING: property={} {}", id, e.text)),
+            (1, None) if out.contains("harness:") => inconclusive.push(format!("regression {}: harness self-check failed: {}", rel, out)),
             (1, None) => violations.push((format!("regression {}: {}", rel, out), full.clone())),
             (3, None) => violations.push((format!("regression {}: does not terminate / memory budget", rel), full.clone())),
             (c, _) => inconclusive.push(format!("regression {} could not be replayed (exit {})", rel, c)),
